@@ -6,7 +6,7 @@ import random
 
 from .. import apiscen as AS
 from .. import lifetrace as LT
-from ..common import Check
+from ..common import Check, gen_params
 from ..subharness import class_info
 
 PROP_FILE = "Properties/C14.v"
@@ -53,8 +53,11 @@ def run_case(case, infos, devs):
 def bound_us(s, infos):
     """closed form from the regenerated constants: every phase's time-out for the subunits that were
     initialised or attempted, plus the two joins of close()"""
-    n_ids = 23
-    b = 2_000_000 + 500_000 * (n_ids + 1)
+    from ..common import gen_params
+
+    gp = gen_params()
+    n_ids = len(infos)
+    b = gp.get("p_detect_base", 2_000_000) + gp.get("p_detect_per_cmd", 500_000) * (n_ids + 1)
     attempted = set()
     for e in s.sim.events:
         if e["k"] == "SetAdd" and e.get("set") == "message" and isinstance(e.get("item"), str) and e["item"].endswith("._protocol_message_received"):
@@ -68,8 +71,8 @@ def bound_us(s, infos):
                 q = f.initializer or f.name
                 if q not in plan:
                     plan.append(q)
-            b += 2_000_000 + 500_000 * (len(plan) + 1)
-    return b + 2_000_000 + 2_000_000
+            b += gp.get("p_init_base", 2_000_000) + gp.get("p_init_per_cmd", 500_000) * (len(plan) + 1)
+    return b + gp.get("p_join_sender", 2_000_000) + gp.get("p_join_reader", 2_000_000)
 
 
 def monitor(s, case, infos):
@@ -175,7 +178,7 @@ def run(chk: Check):
     if not any(b["obligation"].startswith(("translator", "compile")) for b in chk.broken):
         sel = [(c, s) for c, s in sessions if s.sim.failure is None and s.port is not None][:: max(1, len(sessions) // (80 if chk.tier == "quick" else 600))]
         lcases = [(True, LT.project_life(s.sim.events)[0]) for c, s in sel]
-        ok, res, err = LT.replay_life("c14_life", lcases, 2_000_000, 2_000_000)
+        ok, res, err = LT.replay_life("c14_life", lcases, gen_params().get("p_join_sender", 2_000_000), gen_params().get("p_join_reader", 2_000_000))
         if not ok:
             chk.obligation_broken("cases c14_life", (err or "")[-800:])
         else:
